@@ -69,7 +69,10 @@ def main():
     old = {}
     mp = os.path.join(out, "meta.json")
     if os.path.exists(mp):
-      old = json.load(open(mp)).get("checks", {})
+      prev = json.load(open(mp))
+      old = prev.get("checks", {})
+      if prev.get("note") and not meta["confirmed"]:
+        meta["note"] = prev["note"]     # hand-written: why it no longer breaks
     old.update(meta["checks"]); meta["checks"] = old
     json.dump(meta, open(mp, "w"), indent=1)
     print(sid, "confirmed" if meta["confirmed"] else "NOT CONFIRMED", meta["suite_with_change"], "demo", r1.returncode, r0.returncode,
